@@ -45,8 +45,8 @@ func init() {
 
 type c16sEv struct {
 	G   int    `json:"g"`
-	Gap int    `json:"d,omitempty"` // quarter intervals (15 s) since the previous event of the timeline
-	K   string `json:"k"`           // add | drop | flush
+	Gap int    `json:"d,omitempty"`  // quarter intervals (15 s) since the previous event of the timeline
+	K   string `json:"k"`            // add | drop | flush
 	Us  int    `json:"us,omitempty"` // add: duration in microseconds
 	Y   int    `json:"y,omitempty"`
 }
@@ -359,6 +359,6 @@ func c16sGen(rt *rapid.T) c16sCase {
 
 func TestVerif_C16_metrics(t *testing.T) {
 	defer runtime.GOMAXPROCS(runtime.GOMAXPROCS(1))
-	kit.Run(t, "C16", "metrics-reports", kit.Opts{Quick: 2500, Thorough: 160000}, c16sGen,
+	kit.Run(t, "C16", "metrics-reports", kit.Opts{Quick: 6000, Thorough: 160000}, c16sGen,
 		func(c c16sCase) kit.Verdict { return c16sInterp(t, c) })
 }
